@@ -337,4 +337,16 @@ example : ∃ p, Reachable exE (initEmit exE.mode 1) p ∧ p.out.buf = [3] ∧ p
 /-- hypotheses of the fail-fast theorems are satisfiable: in `exU` the application to 8 = 2³·1 fails -/
 example : (exU.unfoldF (seedAt exU 1 3)).2 = some 8 := by decide
 
+/-! ## Sources created under a cancelled context -/
+
+/-- The start states of a `pre=1` script (cancel before the goroutine's first step) are reachable: every invariant,
+the closing and the termination theorems above speak about such runs too. -/
+theorem preStart_reachable (P : Fn β ε) (p0 : Src β ε) : ∀ p ∈ preStart P p0, Reachable P p0 p ∧ p.cancelled = true := by
+  intro p hp
+  simp only [preStart, List.mem_map] at hp
+  obtain ⟨⟨q, o⟩, hmem, rfl⟩ := hp
+  refine ⟨.step .init (Or.inr ⟨.cancel, o, hmem⟩), ?_⟩
+  simp [envNext] at hmem
+  rw [hmem.1]
+
 end Golem.Props.C11
